@@ -7,12 +7,6 @@ Import ListNotations.
 Local Open Scope string_scope.
 
 (* ------------------------------------------------------------------ rendered lines *)
-Definition tok_ok (t : string) : bool := no_char sp t && no_char nlc t.
-Definition line_ok (l : line) : Prop := l <> [] /\ forallb tok_ok l = true.
-Definition render_line (l : line) : string := join sp l ++ String nlc "".
-Fixpoint render_lines (ls : list line) : string :=
-  match ls with [] => "" | l :: t => join sp l ++ String nlc (render_lines t) end.
-
 Lemma line_ok_sp l : line_ok l -> forallb (no_char sp) l = true.
 Proof.
   intros (_ & H). rewrite forallb_forall in *. intros t Ht. specialize (H t Ht).
